@@ -2,8 +2,13 @@ package props
 
 import (
 	"fmt"
+	"math/big"
 	"reflect"
 	"strings"
+
+	"github.com/cockroachdb/apd/v2"
+	compact_float "github.com/kstenerud/go-compact-float"
+	compact_time "github.com/kstenerud/go-compact-time"
 
 	"github.com/kstenerud/go-concise-encoding/ce"
 	"github.com/kstenerud/go-concise-encoding/ce/events"
@@ -27,6 +32,9 @@ type C13Case struct {
 	Format string    `json:"format,omitempty"`
 	Tmpl   string    `json:"template,omitempty"`
 	Elems  []C13Elem `json:"elems,omitempty"`
+	// any-value variant (Mutation == "build-any"): Vals[i] is the value at position i (any scalar kind or a
+	// small container); the oracle is the same document with every reference replaced by its value
+	Vals [][]ev.Event `json:"vals,omitempty"`
 }
 
 // C13Elem: Kind "v" plain value, "m" marked value (marker ID), "r" reference to marker ID.
@@ -323,6 +331,155 @@ func (c *C13Case) checkBuild(ctx *Ctx) error {
 	return nil
 }
 
+// c13AnyValues: one value of every kind the builders have a separate entry for (a marker builder forwards each
+// Build* call on its own), beyond the 64-bit integers of the first builder half.
+func c13AnyValue(t *rapid.T) []ev.Event {
+	bigI := func(s string) *big.Int { v, _ := new(big.Int).SetString(s, 10); return v }
+	str := func(s string) ev.Event {
+		return ev.Event{K: ev.Array, AT: events.ArrayTypeString, U: uint64(len(s)), Bs: []byte(s)}
+	}
+	pool := [][]ev.Event{
+		{{K: ev.Int, I: 5}}, {{K: ev.Int, I: -70000}}, {{K: ev.PInt, U: 1<<63 + 5}}, {{K: ev.NInt, U: 1<<63 + 5}}, {{K: ev.PInt, U: 1<<64 - 1}},
+		{{K: ev.BigInt, Big: bigI("9223372036854775808")}}, {{K: ev.BigInt, Big: bigI("18446744073709551616")}}, {{K: ev.BigInt, Big: bigI("100000000000000000000")}},
+		{{K: ev.BigInt, Big: bigI("-9223372036854775809")}}, {{K: ev.BigInt, Big: bigI("-100000000000000000000000000000")}},
+		{{K: ev.Float, F: 1.5}}, {{K: ev.Float, F: 0.1}}, {{K: ev.Float, F: -2.5e300}},
+		{{K: ev.DFloat, DF: compact_float.DFloatValue(-1, 15)}}, {{K: ev.DFloat, DF: compact_float.DFloatValue(400, 7)}},
+		{{K: ev.BigFloat, BF: new(big.Float).SetPrec(100).Quo(big.NewFloat(1), big.NewFloat(3))}},
+		{{K: ev.BigDFloat, BDF: c13APD("1.234567890123456789012345678")}},
+		{{K: ev.True}}, {{K: ev.False}}, {{K: ev.Nan, B: false}},
+		{{K: ev.UID, Bs: []byte{1, 2, 3, 4, 5, 6, 7, 8, 9, 10, 11, 12, 13, 14, 15, 16}}},
+		{{K: ev.Time, T: compact_time.NewDate(2020, 1, 15)}}, {{K: ev.Time, T: compact_time.NewTimestamp(2020, 1, 15, 10, 30, 0, 5, compact_time.TZAtUTC())}},
+		{str("abc")}, {str("a string longer than fifteen bytes")}, {str("")},
+		{{K: ev.Array, AT: events.ArrayTypeResourceID, U: 10, Bs: []byte("http://x.y")}},
+		{{K: ev.Array, AT: events.ArrayTypeUint8, U: 3, Bs: []byte{1, 2, 3}}},
+		{{K: ev.Array, AT: events.ArrayTypeInt32, U: 2, Bs: []byte{1, 0, 0, 0, 0xff, 0xff, 0xff, 0xff}}},
+		{{K: ev.List}, {K: ev.Int, I: 1}, str("x"), {K: ev.End}},
+		{{K: ev.Map}, str("k"), {K: ev.BigInt, Big: bigI("36893488147419103232")}, {K: ev.End}},
+		{{K: ev.List}, {K: ev.End}},
+	}
+	return ev.Clone(pool[rapid.IntRange(0, len(pool)-1).Draw(t, "anyval")])
+}
+
+func c13APD(s string) *apd.Decimal {
+	d, _, err := apd.NewFromString(s)
+	if err != nil {
+		panic(err)
+	}
+	return d
+}
+
+func genC13BuildAny(t *rapid.T) *C13Case {
+	c := &C13Case{Mutation: "build-any", MaxIDLen: 1000, Format: rapid.SampledFrom([]string{"cbe", "cte"}).Draw(t, "format"),
+		Tmpl: rapid.SampledFrom([]string{"[]interface", "nil-list", "nil-map", "map[string]interface"}).Draw(t, "anytmpl")}
+	n := rapid.IntRange(2, 10).Draw(t, "n")
+	var marked []int
+	for i := 0; i < n; i++ {
+		e := C13Elem{Kind: rapid.SampledFrom([]string{"v", "m", "m", "r", "r"}).Draw(t, "kind")}
+		if e.Kind == "m" {
+			marked = append(marked, i)
+			e.ID = fmt.Sprintf("m%d", i)
+		}
+		c.Elems = append(c.Elems, e)
+		c.Vals = append(c.Vals, c13AnyValue(t))
+	}
+	for i := range c.Elems {
+		if c.Elems[i].Kind != "r" {
+			continue
+		}
+		if len(marked) == 0 {
+			c.Elems[i].Kind = "v"
+			continue
+		}
+		tgt := marked[rapid.IntRange(0, len(marked)-1).Draw(t, "tgt")]
+		c.Elems[i].ID = fmt.Sprintf("m%d", tgt)
+		c.Vals[i] = ev.Clone(c.Vals[tgt])
+	}
+	return c
+}
+
+// anyEvents builds the document; withRefs=false gives the reference document (no markers, values in place of references).
+func (c *C13Case) anyEvents(withRefs bool) []ev.Event {
+	isMap := c.Tmpl == "nil-map" || c.Tmpl == "map[string]interface"
+	evs := []ev.Event{{K: ev.BD}, {K: ev.Version}}
+	if isMap {
+		evs = append(evs, ev.Event{K: ev.Map})
+	} else {
+		evs = append(evs, ev.Event{K: ev.List})
+	}
+	for i, e := range c.Elems {
+		if isMap {
+			evs = append(evs, ev.Event{K: ev.StringArray, AT: events.ArrayTypeString, S: fmt.Sprintf("K%d", i)})
+		}
+		switch {
+		case e.Kind == "m" && withRefs:
+			evs = append(evs, ev.Event{K: ev.Marker, Bs: []byte(e.ID)})
+			evs = append(evs, ev.Clone(c.Vals[i])...)
+		case e.Kind == "r" && withRefs:
+			evs = append(evs, ev.Event{K: ev.RefLocal, Bs: []byte(e.ID)})
+		default:
+			evs = append(evs, ev.Clone(c.Vals[i])...)
+		}
+	}
+	return append(evs, ev.Event{K: ev.End}, ev.Event{K: ev.ED})
+}
+
+func (c *C13Case) checkBuildAny(ctx *Ctx) error {
+	cfg := newCfg()
+	ctx.Label("mutation:build-any")
+	ctx.Label("build-template:" + c.Tmpl)
+	fwd := false
+	seen := map[string]bool{}
+	for i, e := range c.Elems {
+		if e.Kind == "m" {
+			seen[e.ID] = true
+			ctx.Label("marked value kind: " + c.Vals[i][0].K.String())
+		}
+		if e.Kind == "r" && !seen[e.ID] {
+			fwd = true
+		}
+	}
+	ctx.NonTrivial(true)
+	ctx.LabelIf(fwd, "forward-ref")
+	var tmpl interface{}
+	switch c.Tmpl {
+	case "[]interface":
+		tmpl = []interface{}{}
+	case "map[string]interface":
+		tmpl = map[string]interface{}{}
+	}
+	var docs [2][]byte
+	for k, withRefs := range []bool{true, false} {
+		evs := c.anyEvents(withRefs)
+		var idx int
+		var err error
+		if c.Format == "cbe" {
+			docs[k], idx, err = encodeCBE(evs, cfg)
+		} else {
+			docs[k], idx, err = encodeCTE(evs, cfg)
+		}
+		if idx >= 0 {
+			return fmt.Errorf("harness: the generated document (references=%v) is rejected at event %d: %v\n%s", withRefs, idx, err, ev.ListString(evs))
+		}
+	}
+	want, werr, bad := unmarshalDoc(ctx, c.Format, docs[1], tmpl, cfg)
+	if bad != nil || werr != nil {
+		// the plain document itself does not unmarshal: not this property's business
+		ctx.Label("plain document does not unmarshal (skipped)")
+		return nil
+	}
+	got, gerr, bad := unmarshalDoc(ctx, c.Format, docs[0], tmpl, cfg)
+	if bad != nil {
+		return fmt.Errorf("%v\ndoc=%s", bad, docdump(c.Format, docs[0]))
+	}
+	if gerr != nil {
+		return fmt.Errorf("a document the validator accepts failed to unmarshal into %s although the same document without markers does: %v\ndoc=%s", c.Tmpl, gerr, docdump(c.Format, docs[0]))
+	}
+	if !sameValue(got, want) {
+		return fmt.Errorf("references were not replaced by the marked values (template %s):\n with markers and references: %#v\n with the values in place:     %#v\ndoc=%s", c.Tmpl, got, want, docdump(c.Format, docs[0]))
+	}
+	return nil
+}
+
 var c13BadIDs = []string{"", "a b", "a:b", "€", "a\xffb", "x/y", "\U0001F642", "a\x00", "!", "\"q\"", "a\nb", "�"}
 
 func c13Opts(ctx *Ctx) gen.EvOpts {
@@ -351,6 +508,9 @@ func insertEvent(evs []ev.Event, at int, e ev.Event) []ev.Event {
 
 func genC13(t *rapid.T, ctx *Ctx) interface{} {
 	if rapid.IntRange(0, 3).Draw(t, "half") == 0 {
+		if rapid.IntRange(0, 2).Draw(t, "buildany") == 0 {
+			return genC13BuildAny(t)
+		}
 		return genC13Build(t)
 	}
 	c := &C13Case{MaxIDLen: rapid.SampledFrom([]int{1000, 1000, 1000, 20, 6, 3, 1}).Draw(t, "maxid")}
@@ -495,6 +655,9 @@ func init() {
 			c := ci.(*C13Case)
 			if c.Mutation == "build" {
 				return c.checkBuild(ctx)
+			}
+			if c.Mutation == "build-any" {
+				return c.checkBuildAny(ctx)
 			}
 			cfg := newCfg()
 			cfg.Rules.MaxIdentifierLength = uint64(c.MaxIDLen)
